@@ -65,4 +65,27 @@ def showRes {α} (f : α → String) : Res α → String
 
 def showBool (b : Bool) : String := if b then "true" else "false"
 
+
+/-- one answer per case line; `Cxx.op args…`; unknown ops answer `bad-op` (never a default value) -/
+def dispatchWith (handle : String → List String → Option String) (line : String) : String :=
+  match line.trimAscii.toString.splitOn " " with
+  | [] => "bad-op"
+  | full :: args =>
+    let op := match full.splitOn "." with
+      | [_, op] => op
+      | _ => full
+    (handle op args).getD "bad-op"
+
+partial def loop (handle : String → List String → Option String) (hin hout : IO.FS.Stream) : IO Unit := do
+  let line ← hin.getLine
+  if line.isEmpty then return ()
+  hout.putStrLn (dispatchWith handle line)
+  loop handle hin hout
+
+def runDriver (handle : String → List String → Option String) : IO Unit := do
+  let hin ← IO.getStdin
+  let hout ← IO.getStdout
+  loop handle hin hout
+  hout.flush
+
 end Driver
